@@ -1389,16 +1389,22 @@ def _stdlib_models():
 
 def _is_generator(fn):
     """does the function body (not nested definitions) yield?"""
+    cached = getattr(fn, "_is_generator", None)
+    if cached is not None:
+        return cached
+    res = False
     stack = list(fn.body) if not isinstance(fn, ast.Lambda) else []
     while stack:
         n = stack.pop()
         if isinstance(n, (ast.Yield, ast.YieldFrom)):
-            return True
+            res = True
+            break
         if isinstance(n, (ast.FunctionDef, ast.AsyncFunctionDef, ast.Lambda,
                           ast.ClassDef)):
             continue
         stack.extend(ast.iter_child_nodes(n))
-    return False
+    fn._is_generator = res      # syntax trees are immutable once parsed
+    return res
 
 
 class Interp:
